@@ -83,7 +83,9 @@ func (p *Parser) ParseFunctionParameters() []*ast.Identifier {
 
 func (p *Parser) ParseReturnStatement() *ast.ReturnStatement {
 	stmt := &ast.ReturnStatement{Token: p.CurrentToken}
-	if p.PeekToken.Type != token.SEMICOLON && p.PeekToken.Type != token.EOF && p.PeekToken.Type != token.RBRACE {
+	// restricted production: a line break after `return` ends the statement (`return<LF>x` is `return; x`)
+	if p.PeekToken.Type != token.SEMICOLON && p.PeekToken.Type != token.EOF && p.PeekToken.Type != token.RBRACE &&
+		!p.PeekToken.AfterNewline {
 		p.NextToken()
 		stmt.ReturnValue = p.ParseExpression()
 	}
@@ -225,6 +227,10 @@ func (p *Parser) ParseExpressionWithPrecedence(precedence int) ast.Expression {
 
 func (p *Parser) ParseRemainingExpressionWithPrecedence(left ast.Expression, precedence int) ast.Expression {
 	for p.PeekToken.Type != token.SEMICOLON && precedence < p.peekPrecedence() {
+		// restricted production: no line break before a postfix `++` / `--` (`a<LF>++b` is `a; ++b`)
+		if p.PeekToken.AfterNewline && (p.PeekToken.Type == token.INCREMENT || p.PeekToken.Type == token.DECREMENT) {
+			return left
+		}
 		// Smart semicolon insertion: prevent LPAREN and LBRACKET after newline from continuing expression
 		// https://eslint.org/docs/latest/rules/no-unexpected-multiline
 		if p.smartSemicolons && p.PeekToken.AfterNewline {
